@@ -13,6 +13,9 @@ import (
 
 func init() {
 	register(&PropertyCheck{ID: "C15", Level: "other", Run: checkC15, Canaries: []Canary{
+		{Name: "two-byte-fast-path-forgets-the-mask", Rule: "R9.3", Where: "(*vbint).UnmarshalBinary#single-path", Edits: []Edit{{"wiretypes.go", "\tvar multiplier uint = 1\n\tvar value uint\n\tfor _, encodedByte := range data {", "\tif b0 := data[0]; b0 < 128 {\n\t\t*v = vbint(b0)\n\t\treturn nil\n\t} else if len(data) > 1 && data[1] < 128 {\n\t\t*v = vbint(b0) | vbint(data[1])<<7\n\t\treturn nil\n\t}\n\tvar multiplier uint = 1\n\tvar value uint\n\tfor _, encodedByte := range data {"}}},
+		{Name: "minimality-check-in-one-decoder-only", Rule: "R9.3", Where: "(*vbint).ReadFrom#single-path", Edits: []Edit{{"wiretypes.go", "\t\tmultiplier = multiplier * 128\n\t}\n\t*v = vbint(value)\n\treturn i, nil", "\t\tmultiplier = multiplier * 128\n\t}\n\tif i > 1 && data[0] == 0 {\n\t\treturn i, unmarshalErr(v, \"\", \"not minimal\")\n\t}\n\t*v = vbint(value)\n\treturn i, nil"}}},
+		{Name: "helper-rewrites-the-decoded-value", Rule: "R9.3", Where: "(*vbint).ReadFrom#single-path", Edits: []Edit{{"wiretypes.go", "\t\tmultiplier = multiplier * 128\n\t}\n\t*v = vbint(value)\n\treturn i, nil\n}", "\t\tmultiplier = multiplier * 128\n\t}\n\t*v = vbint(value)\n\tclampVBI(v)\n\treturn i, nil\n}\n\nfunc clampVBI(v *vbint) {\n\tif *v > 268435455 {\n\t\t*v = 268435455\n\t}\n}"}}},
 		{Name: "header-decodes-first-length-byte-itself", Rule: "R6.2", Where: "remainingLen", Edits: []Edit{{"packet.go", "\tm, err := f.remainingLen.ReadFrom(r)\n\treturn n + m, err", "\tm, err := f.remainingLen.ReadFrom(r)\n\tif f.remainingLen > 127 {\n\t\tvar rest vbint\n\t\tk, e2 := rest.ReadFrom(r)\n\t\tf.remainingLen += rest * 128\n\t\treturn n + m + k, e2\n\t}\n\treturn n + m, err"}}},
 		{Name: "encoder-radix-127", Rule: "R15.1", Where: "encoder", Edits: []Edit{{"wiretypes.go", "\t\tencodedByte := byte(x % 128)\n\t\tx = x / 128", "\t\tencodedByte := byte(x % 128)\n\t\tx = x / 127"}}},
 		{Name: "decoder-mask-126", Rule: "R15.1", Where: "(*vbint).UnmarshalBinary", Edits: []Edit{{"wiretypes.go", "\tfor _, encodedByte := range data {\n\t\tvalue += uint(encodedByte) & uint(127) * multiplier", "\tfor _, encodedByte := range data {\n\t\tvalue += uint(encodedByte) & uint(126) * multiplier"}}},
